@@ -320,7 +320,17 @@ impl Check for BondingHistory {
                     let a = amount.u128();
                     let coins: Vec<Coin> = match funds {
                         FundsKind::Exact => if a > 0 { vec![coin(a, DENOMS[d])] } else { vec![] },
-                        FundsKind::Mismatch => vec![coin(a + 1, DENOMS[d])],
+                        // declared amount a, attached something else: more, one less, half, double, one unit
+                        FundsKind::Mismatch => {
+                            let sent = match (a / 7) % 5 {
+                                0 => a + 1,
+                                1 => a.saturating_sub(1),
+                                2 => a / 2,
+                                3 => a.saturating_mul(2).max(2),
+                                _ => if a == 1 { 2 } else { 1 },
+                            };
+                            if sent == 0 { vec![] } else { vec![coin(sent, DENOMS[d])] }
+                        }
                         FundsKind::WrongDenom => vec![coin(a.max(1), DENOMS[(d + 1) % 2])],
                         FundsKind::Extra => {
                             let mut v = vec![coin(a.max(1), DENOMS[d]), coin(1, "uwhale")];
@@ -370,7 +380,13 @@ impl Check for BondingHistory {
                     let u = (*user % 4) as usize;
                     let d = (*denom % 3) as usize;
                     let usr = bw.user(*user);
-                    let a = gen::frac(*k, bonded[u][d.min(1)]);
+                    // one unbond in sixteen asks for more than the user has bonded (up to the global total and beyond)
+                    let a = if *k % 16 == 7 {
+                        rec.class("unbond_attempt_above_own_bond");
+                        bonded[u][d.min(1)] + 1 + (*k as u128 >> 4) * (bonded.iter().map(|b| b[d.min(1)]).sum::<u128>() / 2048 + 1)
+                    } else {
+                        gen::frac(*k, bonded[u][d.min(1)])
+                    };
                     match bw.unbond(&usr, &native(DENOMS[d]), a) {
                         Ok(()) => {
                             ensure!(d < 2 && a > 0 && a <= bonded[u][d], "step {step}: unbond of {a} {} accepted with a bond of {}", DENOMS[d], bonded[u][d.min(1)]);
